@@ -999,7 +999,7 @@ def _eval_bool_local(fn, loc, known, depth=0):
     return None
 
 
-def reach_bool(fn, start, avoid_edges=(), avoid_blocks=(), cap=200000):
+def reach_bool(fn, start, avoid_edges=(), avoid_blocks=(), cap=200000, seed_from=None):
     """Like Fn.reach, but tracks the constant value of user-named bool locals along each path and follows only
     the consistent edge of a switch whose operand evaluates from them (handles `let ok = a && b; if !ok {..}`)."""
     tracked = _tracked_bools(fn)
@@ -1030,7 +1030,24 @@ def reach_bool(fn, start, avoid_edges=(), avoid_blocks=(), cap=200000):
     ae2 = set(e for e in avoid_edges if len(e) == 2)
     ae3 = set(e for e in avoid_edges if len(e) == 3)
     ab = set(avoid_blocks)
-    init = (start, frozenset())
+    known0 = {}
+    if seed_from is not None:
+        # what the guards dominating `seed_from` say about tracked flags (`if enough { .. } else { <seed_from> }`)
+        for g in guards_of(fn, seed_from):
+            t0 = fn.term(g["sw"])
+            if isinstance(g["polarity"], bool) and t0[3][0] in "cm" and not t0[3][1][1]:
+                l0 = t0[3][1][0]
+                for _ in range(3):
+                    if l0 in tracked:
+                        break
+                    d0 = fn.defs().get(l0, [])
+                    if len(d0) == 1 and d0[0][2] == "assign" and d0[0][3][4][0] == "use" and d0[0][3][4][1][0] in "cm" and not d0[0][3][4][1][1][1]:
+                        l0 = d0[0][3][4][1][1][0]
+                    else:
+                        break
+                if l0 in tracked and not any(d_[0] in fn.reach(g["sw"]) and d_[0] != g["sw"] and fn.dominates(g["sw"], d_[0]) and seed_from in fn.reach(d_[0]) for d_ in fn.defs().get(l0, [])):
+                    known0[l0] = g["polarity"]
+    init = (start, frozenset(known0.items()))
     seen = {init}
     dq = deque([init])
     blocks = {start}
